@@ -34,6 +34,21 @@ let () = iter_lines (fun line ->
         let sb = bytes_of_hex src in
         let (ls, ok) = getlns_all (nat_of_int (List.length sb + 2)) (i_init (nat_of_int (int_of_string cap)) sb (List.map r (split scr))) (List.hd (bytes_of_hex sep)) in
         (if ls = [] then "-" else String.concat "," (List.map (fun (l, m) -> hex_of_bytes l ^ ":" ^ b01 m) ls)) ^ " " ^ b01 ok
+    | ["get"; cap; scr; lens; src] ->
+        (* successive i_get calls of Mem/Substdio.v: "r:hex,..." stopping after the first r <= 0 (error: -1) *)
+        let split s = if s = "-" then [] else String.split_on_char ',' s in
+        let num s = int_of_string (String.sub s 1 (String.length s - 1)) in
+        let r = function s when s.[0] = 'i' -> RIntr | s when s.[0] = 'e' -> RErr | s -> RChunk (nat_of_int (num s)) in
+        let rec go b first = function
+          | [] -> ""
+          | l :: rest ->
+              let (res, b') = i_get b (nat_of_int (int_of_string l)) in
+              let sep = if first then "" else "," in
+              (match res with
+               | None -> sep ^ "-1:-"
+               | Some d -> let n = List.length d in sep ^ string_of_int n ^ ":" ^ hex_of_bytes d ^ (if n = 0 then "" else go b' false rest)) in
+        let ls = split lens in
+        if ls = [] then "-" else go (i_init (nat_of_int (int_of_string cap)) (bytes_of_hex src) (List.map r (split scr))) true ls
     | ["dns"; kind; want; resp] ->
         (* the record walk of dns.c on one response: "S" (resolve: DNS_SOFT) | "<results e.g. KGKS>;<largest index read or -1>;<nreads>"
            K = skipped (0), G = got (1), S = DNS_SOFT, E = end (2); dn_expand = the simple-name stand-in *)
